@@ -35,6 +35,8 @@ pub struct Mon {
     pub polls: u32,
     /// calls that hit an instance on which readiness had not been observed
     pub unready_calls: u32,
+    /// bit k set: call number k hit an instance that had not observed readiness
+    pub unready_mask: u8,
     pub ready_polls: u32,
     pub clones: u32,
     /// tokio-model permits held when the inner call was entered / minimum seen while live
@@ -54,7 +56,7 @@ pub struct Mon {
 pub static mut MON: Mon = Mon {
     magic: [0x494e4e45525f4d4f, 0x4e49544f525f5356],
     calls: 0, last_req: 0, live: 0, max_live: 0, completed: 0, completed_mask: 0, dropped_unfinished: 0, polls: 0,
-    unready_calls: 0, ready_polls: 0, clones: 0, permits_at_entry: 0, min_permits_while_live: 99,
+    unready_calls: 0, unready_mask: 0, ready_polls: 0, clones: 0, permits_at_entry: 0, min_permits_while_live: 99,
     call_times: [core::time::Duration::ZERO; 4], events: 0,
     script: Script { outcomes: [Ok(0x5c21_9701); 4], never: false, latency: None, lats: [core::time::Duration::ZERO; 4], use_lats: false, never_mask: 0, immediate: false, ready: 0 },
     ready_at: [None; 4],
@@ -182,6 +184,7 @@ impl tower::Service<u32> for Inner {
         }
         if !self.ready_seen {
             m.unready_calls += 1;
+            m.unready_mask |= 1 << idx;
         }
         self.ready_seen = false;
         m.permits_at_entry = tokio::model::st().permits_held;
